@@ -111,7 +111,7 @@ def check_under_guard(ctx):
         ctx.anchor_missing(inst, "retirement-stamp sites: expected >= 14, found %d" % n)
     R.fieldw_within(ctx, inst + "/retired_at", "Record", "retired_at",
                     ["FeoxStore::delete_with_timestamp", "FeoxStore::retire_expired_if_current", "ttl_sweep::sample_and_expire_batch",
-                     "Record::new", "Record::new_from_bytes", "Record::new_deferred_with_ttl"], floor=6)
+                     "Record::new", "Record::new_from_bytes", "Record::new_deferred_with_ttl"], floor=4)   # three retirement paths + at least one constructor
 
 
 STALE_ARG_FNS = [("FeoxStore::update_record_with_ttl", 2), ("FeoxStore::update_record_with_ttl_bytes", 2),
